@@ -21,7 +21,9 @@ def _members_stream(rng):
                                   "s": STEPD(window_size=4, alpha_warning=0.4, alpha_drift=0.1)},
                                  MinimumApprovalElection(approvals_needed=1), {"p": lambda X: (X.iloc[:, [0]] if hasattr(X, "iloc") else X[:, [0]])})
     pool = [
-        ("lfr", lambda: LinearFourRates(time_decay_factor=0.75, warning_level=0.2, detect_level=0.05, burn_in=5, num_mc=60, subsample=1, round_val=2), None),
+        # (only the true-positive rate is tracked: LFR is NOT symmetric in the two labels - what the ensemble passes on as y_true must be y_true)
+        ("lfr", lambda: LinearFourRates(time_decay_factor=0.75, warning_level=0.2, detect_level=0.05, burn_in=5, num_mc=60, subsample=1, round_val=2,
+                                        rates_tracked=["tpr"]), None),
         ("adwacc", lambda: ADWINAccuracy(delta=0.3, new_sample_thresh=2, window_size_thresh=4, subwindow_size_thresh=2), None),
         ("pcacd", lambda: PCACD(window_size=14, ev_threshold=0.9, delta=0.05, divergence_metric="intersection", sample_period=0.1), None),
         ("nest", nested, None),
@@ -184,7 +186,8 @@ def run_stream(spec):
                 X[:] = row
         else:
             X = pd.DataFrame(row, columns=["a", "b", "c"]) if spec["frame"] else row
-        yt, yp = 1, (0 if rng.random() < perr else 1)
+        yt = 1 if rng.random() < 0.75 else 0
+        yp = (1 - yt) if rng.random() < (perr if yt == 1 else perr / 4) else yt          # (errors on the positive class are four times as frequent)
         np.random.seed(1000 + t)
         ens.update(X, yt, yp)
         np.random.seed(1000 + t)
